@@ -31,7 +31,12 @@ def main():
     if "--tier" in sys.argv:
         tier = sys.argv[sys.argv.index("--tier") + 1]
     prop = [json.loads(l) for l in open(os.path.join(HERE, "properties.jsonl")) if json.loads(l)["id"] == pid][0]
-    files = [os.path.join(REPO, f) for f in prop["anchors"]["files"] if f.endswith(".py")]
+    import glob
+
+    files = []
+    for f in prop["anchors"]["files"]:
+        if f.endswith(".py"):
+            files += sorted(glob.glob(os.path.join(REPO, f))) if "*" in f else [os.path.join(REPO, f)]
     tmp = tempfile.mkdtemp(prefix="vf_cov_")
     data = os.path.join(tmp, ".coverage")
     env = dict(os.environ, VF_JOBS="1", VF_NO_EVIDENCE="1", VF_REPLAY_DIR=os.path.join(tmp, "replays"), COVERAGE_FILE=data)
